@@ -444,6 +444,10 @@ ensures unmoved(*old(p), *final(p)), r.kind == self.kind, r.pos == self.pos,
     ENS = {
         'source_file_contents': (' (%scur(final(p).st()) == SyntaxKind::EOF || (stop_on_r_curly && %scur(final(p).st()) == SyntaxKind::R_CURLY)),      //@C02,C01:stops-only-at-end-of-input' % (PW, PW), None),
         'literal': (SOME + ' res is None ==> final(p).pos == old(p).pos,', 'res'),
+        # C05 (index expressions nest one operator per node): where ONE index operator ends is named by the uninterpreted
+        # `io_end` (index_operator is a deterministic function of the token state: assumed, AP); an INDEX_EXPR node ends there
+        'index_operator': (' final(p).pos == %sio_end(old(p).st()),' % PW, None),
+        'index_expr': ('\n    final(p).pos == %sio_end(old(p).st()),        //@C05:one-index-operator-per-index-node' % PW, 'res'),
         'atom_expr': (SOME + ' %s ==> %sadv(*old(p), *final(p)),' % (LIVE, PW), 'res'),
         'cast_expr': (' is_classical_k(%s) ==> %sadv(*old(p), *final(p)),' % (CUR, PW), 'res'),
         'gate_call_expr': (' %s == SyntaxKind::IDENT ==> %sadv(*old(p), *final(p)),' % (CUR, PW), 'res'),
@@ -597,6 +601,7 @@ use super::*;
                                 "    fn let_stmt(p: &mut Parser<'_>, m: Marker)\n        requires old(p).wf(), crate::parser::at(old(p).st(), T![let]), crate::parser::pending_at(old(p).events@, m.pos as int),\n        ensures crate::parser::mono_from(*old(p), *final(p), m.pos as int), crate::parser::adv(*old(p), *final(p)),\n        decreases crate::parser::rem(old(p).st()), %dnat,\n    {" % __import__('units.parser_ranks', fromlist=['RANK']).RANK.get('let_stmt', 0))]),
         'expr': dict(rewrites=[D8], closures=True),
         'postfix_expr': dict(ghost=[('{', 'after', 'let ghost lhs0 = lhs;')]),
+        'index_operator': dict(ghost=[('m.complete(p, INDEX_OPERATOR);', 'after', 'assume(p.pos == crate::parser::io_end(old(p).st())); /* AP:determinism: where index_operator stops is a function of the token state (tokens, jointness, cursor) alone; the grammar never branches on anything else */')]),
         'range_expr': dict(rewrites=[D8 + (3,)]),
         'expr_or_range_expr': dict(rewrites=[D8 + (3,)], closures=True),
         'expr_bp': dict(rewrites=[D2], props=P5, spec=gspec(' bp >= 1,', ENS['expr_bp'][0]),
@@ -635,6 +640,8 @@ ensures
                      'Option::<&T>::copied returns the pointee (assume_specification)']
     U.assumed_dep += ['std::mem::replace stores the new value and returns the old one (assume_specification)',
                       'Output::{default,token,enter_node,leave_node,error}: trusted write-side contracts over the abstract step list `steps()` (the 32-bit encode/decode identity is the Kani obligation of the thorough tier)']
+    U.assumed_parser = ['Parser::start: fewer than 2^32 events are recorded (global bound, DESIGN section 7)',
+                        'index_operator: the position at which it stops is a function of the token state alone (determinism; it gives the uninterpreted io_end a meaning, used by the C05 clause of index_expr)']
     U.not_verified = ['Parser::nth: Cell step counter and the "parser seems stuck" assertion', 'Parser::error (generic Into<String>)',
                       'Input::{push,was_joint} (SHORT unit)', 'DropBomb: the Drop discipline of markers is not modelled',
                       'TopEntryPoint::parse: the `if cfg!(debug_assertions) { .. }` tree-balance assertions exist in the debug profile only and are dropped (D29): the verified text is the release profile']
